@@ -85,7 +85,8 @@ def run(ck):
     fi = S.m["findNextIndexForDate"]
     from rules.c06 import regex_patterns
     tp = [t for t in regex_patterns(F, fi) if t[0].startswith("^")]
-    okgz = len(tp) >= 2 and all(t[0].endswith("(\\.gz)?$") for t in tp)
+    from rules.rfs import end_anchor
+    okgz = len(tp) >= 2 and all(end_anchor(t[0])[1].endswith("(\\.gz)?") for t in tp)
     ck.ob("C10-O3", sitestr(fi), okgz, "the next index is searched over plain and .gz names: a leftover of either form is never reused" if okgz else "the index search ignores one of the two forms", key="findNextIndexForDate|leftover-form")
     # compressFile() opens <rotated name>.gz for writing, which truncates: the rotated name must be one no earlier rotation has used. That is the
     # next-index rule over a scan that sees every name the writer produces (shared with C05-O6 / C09-O2 / C09-O3)
